@@ -113,7 +113,7 @@ impl Prop for C11 {
         vec![("accepted-request", 0.6), ("covered-store-refused", 0.3), ("non-monotone-requests", 0.06)]
     }
     fn release_fraction(&self, tier: Tier) -> f64 {
-        tier.pick(0.3, 0.5)
+        tier.pick(0.3, 0.1)
     }
     fn max_shrink_iters(&self) -> u32 {
         400
